@@ -231,4 +231,22 @@ CHECKS = {
         "quick": [T("TestC11", 8, 8, steps=30)],
         "thorough": [T("TestC11", 16, 400, steps=30, timeout=3000)],
     },
+    "C07": {
+        "level": "exploration",
+        "rule": ("differential, rapid: two nodes X and Y from the same std world (audit on/off). X executes 1-5 generated blocks "
+                 "of 1-9 transactions from the full grammar weighted towards failures of every cause: contract error after writes "
+                 "and events (IBTP to a hub-hosted service with audit, reflective calls of writing methods, votes on missing "
+                 "proposals), panics inside contracts, rejected proofs, bad signatures, fee failure after a successful execution, "
+                 "XVM traps, unknown vm types, transfers above the balance. Y executes the same block in which every transaction "
+                 "that got a FAILED receipt on X is replaced by a transaction of the same sender and nonce that fails before "
+                 "anything runs (empty payload). Oracle: raw state dumps of X and Y equal except the balance of failed senders and "
+                 "admins (nonce and code hash equal), no delivery entry for a FAILED transaction, delivery/timeout/multi-tx "
+                 "metadata equal, every other transaction has the same outcome; read-only execution of the whole block before it "
+                 "leaves state store and chain meta untouched. Non-trivial = a failure after execution/writes at a non-final "
+                 "block position; distinct = hash of history."),
+        "assumptions": ["a transaction with an empty payload is taken as the reference for 'fails without effect' (it is rejected before any VM is created)",
+                        "genesis admins do not use balance-relative transfer amounts (their balance depends on the fee income that differs between X and Y)"],
+        "quick": [T("TestC07", 8, 60, steps=30)],
+        "thorough": [T("TestC07", 16, 3000, steps=30, timeout=3000)],
+    },
 }
